@@ -186,14 +186,16 @@ CLAIMS = {
         technique="Lean 4 theorems (loop invariant of the index construction, fold lemmas) + differential correspondence",
         ref="§3 C13"),
     "C14": dict(
-        text="Theorems: for all num_x, num_y >= 1 and spacings the single-zone builder's positions are exactly i*s / j*s; the "
+        text="Theorems: for all num_x, num_y >= 1 and spacings the single-zone builder's positions are exactly i*s / j*s; "
+             "C14_two_col_sites: for all num_x, num_y >= 1, spacing and gate spacing the two-column builder succeeds, left_traps "
+             "are the columns k*(gate_spacing+spacing), right_traps the columns gate_spacing to their right, both with rows "
+             "j*spacing, and both are sub-sets of traps; the "
              "deprecated builder equals its replacement for all arguments; capability sets only name existing zones (all sizes, "
              "single and two-column); Gemini (closed terms, decided by the kernel on the model): zone shapes, every block is a "
              "7x5 sub-set of its parent zone, constants agree with the geometry. The builder models are compared zone by zone "
              "with the real builders for all sizes <= 5 (thorough 8) x spacings, and the documented geometry (two-column "
              "partition, pairs gate_spacing apart) is checked directly on the real outputs.",
-        note=TB + "The two-column partition for all sizes is checked by correspondence and direct oracle, not yet a theorem "
-                  "(needs the sub-grid position lemma).",
+        note=TB + "Gemini facts are closed terms of the model (decide +kernel), tied to the real spec by the zone-by-zone comparison.",
         technique="Lean 4 theorems (induction on size; decide +kernel on closed terms) + exhaustive small-scope correspondence",
         ref="§3 C14"),
     "C15": dict(
